@@ -1,20 +1,20 @@
 """C04 — a stalled synchronised consumer stalls its producers (bounded buffering)."""
 import logging
 from ..core import Violation
-from .. import protocol, sendfeed, pipeline, pairfeed
+from .. import protocol, sendfeed, pipeline, pairfeed, netstall
 
 ID = 'C04'
-PROP_FILES = ['C04', 'C04Potential', 'C04Pair', 'C04Loop']
-MODULES = ['OFModel.Zmq.Sender', 'OFModel.Zmq.Receiver', 'OFModel.Zmq.Pair', 'OFModel.FilterLoop', 'OFModel.Gen.Facts']
+PROP_FILES = ['C04', 'C04Potential', 'C04Pair', 'C04Loop', 'C04NetRecv', 'C04NetSend', 'C04NetInv', 'C04NetTee', 'C04Net']
+MODULES = ['OFModel.Zmq.Sender', 'OFModel.Zmq.Receiver', 'OFModel.Zmq.Pair', 'OFModel.Zmq.Net', 'OFModel.FilterLoop', 'OFModel.Gen.Facts']
 RULE = ('adversarial request feeds of a real non-balanced ZMQSender with 1-4 clients (sync and ephemeral), duplicated / stale / ahead requests, clock steps up to and '
         'beyond the connection time-out; for every synchronised client the feed is cut after its last request (= the stall point) and the publishes made while '
         'it is still tracked are counted against the potential [requested] + queued requests measured on the real object.  Closed loop (OFProps/C04Pair.lean): a REAL ZMQSender and a REAL '
         'ZMQReceiver wired through fakezmq run a random reachable prefix (restarts anywhere), then the consumer stalls for N in {5, 50, 500} send calls (clock steps up to and beyond the '
         'connection time-out); oracle pair-overrun-after-stall: more than one frame set published (none if one is already waiting), or more than one queued at the real SUB socket; '
-        'the same schedule through OF.Pair, compared event by event.  Consumer behind a relay (OFProps/C04Loop.lean): the real Filter.run / Filter.init / loop_once of a relay whose mq.send is blocked b times (and whose mq.recv is empty b times), for every combination of sources_timeout / outputs_timeout in {absent, 0, 50, 100, 150, 250, 1000} ms: attempts made and whether the loop gave the frame up, compared with OF.Loop.waitLoop; oracle relay-gives-up-blocked-send: without outputs_timeout a relay never goes back to recv while its send is blocked.  non-trivial = at least one publish / a blocked attempt')
+        'the same schedule through OF.Pair, compared event by event.  Consumer behind a relay (OFProps/C04Loop.lean): the real Filter.run / Filter.init / loop_once of a relay whose mq.send is blocked b times (and whose mq.recv is empty b times), for every combination of sources_timeout / outputs_timeout in {absent, 0, 50, 100, 150, 250, 1000} ms: attempts made and whether the loop gave the frame up, compared with OF.Loop.waitLoop; oracle relay-gives-up-blocked-send: without outputs_timeout a relay never goes back to recv while its send is blocked.  Network level (OFProps/C04Net.lean, harness/ofverif/netstall.py): 2-5 REAL MQ objects of a chain (forwarding relays, any source, victim = the sink or a relay) or of a tee (a hub with 2-4 consumers, one of them the victim) on fakezmq: random restart-free reachable prefix, then the victim takes no step for N in {20, 200} scheduler rounds while all others step in random order; oracle net-overrun-after-stall: chain - node j published more than 1 + 2 (K - 1 - j) sets or a SUB socket holds more than one unreturned frame set; tee - a hub that tracks the victim published more than ONE set (clock readings within one connection time-out); the same schedule through OF.Net (driver op net.run), compared event by event.  non-trivial = at least one publish / a blocked attempt')
 ASSUMPTIONS = ['sender-level statement for any number of clients: requests in flight in the network and the receiver\'s request rate (one per poll interval + one prefetch) are explored by the '
                'pipeline simulation (MQNet), not proved; closed loop proved for the pair of one publisher and one synchronised consumer (C04_pair_stall_bounded: at most ONE more frame set, for every '
-               'reachable state and every stall length; C04_pair_one_block_in_flight; C04_pair_resumes), immediate loss-free delivery, libzmq timing not modelled', 'libzmq replaced by the in-process fake']
+               'reachable state and every stall length; C04_pair_one_block_in_flight; C04_pair_resumes), immediate loss-free delivery, libzmq timing not modelled', 'network level (C04_net_chain_stall_bounded): chains of any length whose relays forward every set (a relay that drops sets legitimately keeps its publisher going), non-empty topic names, states reachable WITHOUT restarts (with restarts ids are not in lock-step; the pair theorem covers restarts for one edge), any clock readings; one of several consumers (C04_net_tee_stall_bounded_partial): any topology and state, hypotheses: the publisher tracks the stalled consumer, none of its queued requests is a CLOSE, clock readings within one connection time-out of its last request; resume at network level only as a kernel-evaluated example', 'libzmq replaced by the in-process fake']
 TRUSTED = ['transcription OFModel/Zmq/Sender.lean, compared call-by-call with the real class']
 
 
@@ -55,6 +55,44 @@ def pair_stall_campaign(ctx, per_n):
     res.extra['pair_stall'] = hist
 
 
+def net_stall_campaign(ctx, per_n):
+    """closed network (OFProps/C04Net.lean): real MQ objects of a chain / tee on fakezmq, the victim stalls for N scheduler rounds; vs OF.Net event by event"""
+    logging.disable(logging.CRITICAL)
+    res, rng = ctx.result, ctx.rng
+    trials = [c['trial'] for c in ctx.corpus if c.get('feed') == 'net-stall']
+    if ctx.replay: trials = [ctx.replay['case']['trial']] if ctx.replay.get('case', {}).get('feed') == 'net-stall' else []; per_n = {}
+    for n, k in per_n.items():
+        for _ in range(k): trials.append(netstall.gen_trial(rng, n))
+    runs = [netstall.run_stall(t) for t in trials]
+    model = ctx.driver.batch([netstall.model_request(t) for t in trials]) if ctx.driver else None
+    hist = {}
+    for idx, (t, (obs, info)) in enumerate(zip(trials, runs)):
+        topo = t['topo']; v = topo['victim']
+        res.note({'feed': 'net-stall', 'family': topo['family'], 'nodes': len(topo['ups']), 'victim': v, 'prefix_events': len(t['prefix']), 'stall_events': len(t['stall']),
+                  'published_during_stall': info['pubs'], 'max_sets_queued': info['maxq'], 'victim_tracked': info['tracked']}, nontrivial=False)
+        if any(info['pubs']): res.nontrivial.add(f"net-stall:{ctx.seed}:{idx}:{len(t['prefix'])}:{len(t['stall'])}")
+        if topo['family'] == 'chain':
+            for j in range(v):
+                k = f"chain:dist={v - 1 - j}:published={info['pubs'][j]}"; hist[k] = hist.get(k, 0) + 1
+            k = f"chain:max_sets_queued={max(info['maxq'])}"; hist[k] = hist.get(k, 0) + 1
+        else:
+            k = f"tee:tracked={info['tracked']}:window={netstall.tee_window_ok(t, info)}:published={min(info['pubs'][topo['ups'][v][0]], 9)}"; hist[k] = hist.get(k, 0) + 1
+        for key, what in netstall.stall_oracle(t, info)[:1]:
+            res.violations.append(Violation(key, what, {'feed': 'net-stall', 'trial': t}))
+        if model is not None:
+            r = model[idx]
+            if 'err' in r:
+                res.disagreements.append({'point': 'net.run', 'case': {'feed': 'net-stall', 'trial': t}, 'impl': None, 'model': r}); continue
+            d = netstall.compare(t, obs, r)
+            if d is not None:
+                ci, a, b = d
+                evs = t['prefix'] + t['stall']
+                res.disagreements.append({'point': f'net-stall event #{ci} {evs[ci] if ci < len(evs) else None}: real MQ objects vs OF.Net.step', 'case': {'feed': 'net-stall', 'trial': t}, 'impl': a, 'model': b})
+            else:
+                res.traces_validated += 1
+    res.extra['net_stall'] = hist
+
+
 def loop_budget_campaign(ctx, nrand):
     """back-pressure through a relay: wait budgets of the real Filter.loop_once vs OF.Loop.waitLoop"""
     import logging
@@ -85,7 +123,9 @@ def run(ctx):
     loop_budget_campaign(ctx, 400 if ctx.thorough else 60)
     if ctx.replay and ctx.replay.get('case', {}).get('loop'): return
     pair_stall_campaign(ctx, 60 if ctx.thorough else 12)
+    if ctx.replay and ctx.replay.get('case', {}).get('feed') == 'net-stall': net_stall_campaign(ctx, {}); return
     n = 10000 if ctx.thorough else (4000 if ctx.escalate else 1000)
     protocol.send_campaign(ctx, 'C04', n, ['sync', 'sync', 'adv'], extra_oracle=sendfeed.stall_oracle)
     protocol.recv_campaign(ctx, 'C04', n, ['wf', 'adv'])        # the consumer's half of the flow control: what its requests say
     if not ctx.replay: pipeline.campaign_stall(ctx, 300 if ctx.thorough else 30)
+    net_stall_campaign(ctx, {20: 400, 200: 120} if ctx.thorough else ({20: 150, 200: 40} if ctx.escalate else {20: 60, 200: 12}))     # last: the random stream of the campaigns above is unchanged
